@@ -46,9 +46,13 @@ class Gen:
             return ("region", "snax_gemmx", b(), b(), b(), self.newtag())
         if r < 0.85:
             return ("region", "snax_xdma", b(), b(), b(), self.newtag())
+        if r < 0.87:
+            # fused regions (two generics): the first kernel decides, whatever follows
+            k1, k2 = self.rnd.choice([("add", "mul"), ("mul", "add"), ("add", "add"), ("add", "mul")])
+            return ("fregion", self.rnd.choice(["snax_xdma", "snax_xdma", "snax_gemmx"]), b(), b(), b(), k1, k2, self.newtag())
         if r < 0.91:
             # one-input xDMA regions: rescale down / up are extension kernels (data mover); i32->i32 and i8->i8 are not
-            ti, to = self.rnd.choice([("i32", "i8"), ("i8", "i32"), ("i32", "i8"), ("i32", "i32"), ("i8", "i8")])
+            ti, to = self.rnd.choice([("i32", "i8"), ("i8", "i32"), ("i32", "i8"), ("i32", "i32"), ("i8", "i8"), ("si32", "si8"), ("si8", "si32")])
             return ("xregion", self.rnd.choice(["snax_xdma", "snax_xdma", "snax_xdma", "snax_gemmx"]), ti, to, self.rnd.randrange(2), self.rnd.randrange(2), self.newtag())
         return ("test", self.newtag())
 
@@ -69,10 +73,12 @@ def render(prog, second=None):
                 L.append(P + mc.GENERIC.format(i0=s[1], i1=s[2], o=s[3], t=s[4], ty=mc.BUF_T, ind=P))
             elif s[0] == "region":
                 L.append(P + mc.GEMMX_REGION.format(acc=s[1], i0=s[2], i1=s[3], o=s[4], t=s[5], ty=mc.BUF_T, ind=P))
+            elif s[0] == "fregion":
+                L.append(P + mc.FUSED_REGION.format(acc=s[1], i0=s[2], i1=s[3], o=s[4], k1=s[5], k2=s[6], t=s[7], ty=mc.BUF_T, ind=P))
             elif s[0] == "xregion":
                 _, acc, ti, to, a, b_, t = s
-                nm = lambda ty, k: f"%b{k}" if ty == "i32" else f"%d{k}"
-                mt = lambda ty: mc.BUF_T if ty == "i32" else "memref<8xi8>"
+                nm = lambda ty, k: "%" + {"i32": "b", "i8": "d", "si32": "e", "si8": "f"}[ty] + str(k)
+                mt = lambda ty: mc.BUF_T if ty == "i32" else f"memref<8x{ty}>"
                 L.append(P + mc.XDMA_REGION1.format(acc=acc, i0=nm(ti, a), o=nm(to, b_ + 2 if ti == to else b_), t=t, ti=ti, to=to, tyi=mt(ti), tyo=mt(to), ind=P))
             elif s[0] == "test":
                 L.append(P + f'"test.op"() {{tag = {s[1]} : i32}} : () -> ()')
@@ -100,7 +106,8 @@ def render(prog, second=None):
                 L.append(P + "}")
 
     args = ", ".join(f"%b{i} : {mc.BUF_T}" for i in range(4)) + ", %c0 : i1, %c1 : i1, %lb : index, %ub : index, %st : index, " + \
-        ", ".join(f"%d{i} : memref<8xi8>" for i in range(4))
+        ", ".join(f"%d{i} : memref<8xi8>" for i in range(4)) + ", " + ", ".join(f"%e{i} : memref<8xsi32>" for i in range(2)) + ", " + \
+        ", ".join(f"%f{i} : memref<8xsi8>" for i in range(2))
     emit(prog, 2)
     if second is None:
         body = "\n".join(L) + "\n    func.return"
@@ -179,7 +186,7 @@ def case_prog(case, K=2):
         bufs = [Opaque("buffer", name=f"b{i}") for i in range(4)]
         lb, ub, st = z3.BitVec("lb", 32), z3.BitVec("ub", 32), z3.BitVec("st", 32)
         E.assume(z3.And(st > 0, st < 64, lb >= 0, lb < 64, ub >= 0, ub < 64))
-        args = bufs + [z3.BitVec("c0", 1), z3.BitVec("c1", 1), lb, ub, st] + [Opaque("buffer", name=f"d{i}") for i in range(4)]
+        args = bufs + [z3.BitVec("c0", 1), z3.BitVec("c1", 1), lb, ub, st] + [Opaque("buffer", name=f"d{i}") for i in range(4)] + [Opaque("buffer", name=f"e{i}") for i in range(2)] + [Opaque("buffer", name=f"f{i}") for i in range(2)]
         t1 = run_prog(m1, args, None, K)
         t2 = run_prog(m2, args, core, K)
         want = [(t, c) for (t, c) in t1 if c == "all" or (c == "dm" and is_dm) or (c == "compute" and is_cp)]
@@ -214,9 +221,11 @@ def case_prog(case, K=2):
             tags.append("multi_block_function")
         if "snax_xdma" in str(prog) + str(second):
             tags.append("xdma_region")
+        if "'fregion'" in str(prog) + str(second):
+            tags.append("fused_region")
         if "'pipe'" in str(prog) + str(second):
             tags.append("pipeline_stages")
-        if any(x in str(prog) + str(second) for x in ("'snax_xdma', 'i32', 'i32'", "'snax_xdma', 'i8', 'i8'")):
+        if any(x in str(prog) + str(second) for x in ("'snax_xdma', 'i32', 'i32'", "'snax_xdma', 'i8', 'i8'", "'snax_xdma', 'si")):
             tags.append("xdma_region_with_a_kernel_no_extension_implements")
         return f["name"] + ("|" + "+".join(tags) if tags else "")
 
